@@ -144,6 +144,9 @@ def main():
             for k, v in old.items():
                 if k not in ran and k != "checks":
                     ran[k] = v
+            for p, r in old.get("checks", {}).items():
+                if p not in results:
+                    results[p] = r  # not re-run this time: keep the earlier observation
         except Exception:
             pass
     if os.path.realpath(src) != os.path.realpath(dst):
